@@ -24,3 +24,7 @@ mod c35_sizeclass;
 mod c38_heapsize;
 #[cfg(kani)]
 mod c21_bulk;
+#[cfg(kani)]
+mod mmapper;
+#[cfg(kani)]
+mod c22_search;
